@@ -45,8 +45,14 @@ KNOWN_SORT_OFF = {"kind": "arr", "arr": [["R", ["b"]], ["R", ["a"]], ["D", "a", 
 
 
 def gen(ctx):
-    from gen import c11_transforms
+    import hashlib
+    from gen import c11_transforms, c11_src
+    from lib import common
     c11_transforms.run(ctx)
+    # Gen/FootSrc.v: SortFootnotes / UnreferencedFootnotesDetector / CollectFootnotes .apply translated from the source
+    text = c11_src.generate(common.REPO)
+    common.write_if_changed(common.COQ / "Gen" / "FootSrc.v", text)
+    ctx.gen_info["Gen/FootSrc.v"] = hashlib.sha256(text.encode()).hexdigest()[:16]
     ctx.gen_info["sources"] = src_hashes(["myst_parser/mdit_to_docutils/transforms.py", "myst_parser/mdit_to_docutils/base.py",
                                           "myst_parser/parsers/docutils_.py", "myst_parser/parsers/sphinx_.py"])
 
